@@ -56,8 +56,9 @@ type bounds struct {
 //   - near-full-cap: the cap's radius is within 1e-6 rad of 180 degrees, where
 //     the squared-chord representation resolves only ~2e-8 rad;
 //   - nearly-antipodal-edge: the probe lies on an edge whose endpoints are
-//     within 0.5 rad of antipodal (but not within 2e-15, where the bounder switches to the full rectangle) and the miss is below 1e-14/|a+b| (the
-//     edge's plane is ill-conditioned and PointCross is not exact);
+//     within 0.5 rad of antipodal (but not within 0.96e-15, where the bounder switches to the full rectangle) and the miss is below 1e-14/|a+b| (this
+//     class was a recorded finding until its cause, an asin near 1 in RectBounder, was repaired in /repo;
+//     it is kept so that a recurrence has its own fingerprint);
 //   - beyond-representation: everything else.
 func checkProbe(c *mon.Case, what string, b bounds, p s2.Point, kind string, det func() any) {
 	checkProbeEdge(c, what, b, p, kind, 2, 0, det)
@@ -86,7 +87,7 @@ func checkProbeEdge(c *mon.Case, what string, b bounds, p s2.Point, kind string,
 		switch {
 		case ex <= 4e-15+b.granularity:
 			class = "representation-level"
-		case antiNorm < 0.5 && antiNorm >= 2e-15 && ex <= 1e-14/antiNorm: // (below 2e-15 the bounder itself switches to the full rectangle)
+		case antiNorm < 0.5 && antiNorm >= 0.96e-15 && ex <= 1e-14/antiNorm: // (the bounder switches to the full rectangle when |(a-b)x(a+b)| = 2|a+b| is below 1.91346e-15)
 			class = "nearly-antipodal-edge"
 		}
 		c.Max("RectBound.max_miss_rad."+class, ex)
@@ -106,7 +107,7 @@ capCheck:
 			class = "near-full-cap"
 		case ex <= 4e-15+2e-15/math.Max(math.Sin(rad), 1e-9):
 			class = "representation-level"
-		case antiNorm < 0.5 && antiNorm >= 2e-15 && ex <= 1e-14/antiNorm: // (below 2e-15 the bounder itself switches to the full rectangle)
+		case antiNorm < 0.5 && antiNorm >= 0.96e-15 && ex <= 1e-14/antiNorm: // (the bounder switches to the full rectangle when |(a-b)x(a+b)| = 2|a+b| is below 1.91346e-15)
 			class = "nearly-antipodal-edge" // cap bounds of loops and polylines are derived from the rectangle bound
 		}
 		c.Max("CapBound.max_miss_rad."+class, ex)
